@@ -8,5 +8,5 @@ Require Import LV.PropTree.PropModel LV.PropTree.YamlModel LV.PropTree.HashModel
 Extraction Language OCaml.
 Extraction "models_prop.ml"
   step init_state quote_key parse scan
-  yaml_export yaml_import import_document yaml_rt_ideal
+  yaml_export yaml_import import_document import_public yaml_rt_ideal
   h_step h_empty crc32c.
